@@ -87,7 +87,16 @@ func snapScenarios(tier string) []*simScenario {
 			if tier == "thorough" {
 				d = 3
 			}
-			out = append(out, scenSnap(s, d, true, false, 1))
+			sc := scenSnap(s, d, true, false, 1)
+			if s.name == "config-lagging" {
+				// four nodes: keep the fault alphabet small (updates at the leader, snapshots on the follower that lagged);
+				// the broad alphabets run on the three-node seeds
+				sc.Menu = simMenu{Snapshots: true, MaxSnaps: 1, Clients: []string{"update"}, MaxUpdates: 1, ClientNodes: []int{0, 2}, Drops: true}
+				if tier == "thorough" {
+					sc.Menu.Timeouts, sc.Menu.MaxTerm, sc.Menu.Crashes = true, 3, true
+				}
+			}
+			out = append(out, sc)
 			continue
 		}
 		if tier == "thorough" {
